@@ -4982,7 +4982,10 @@ class Path:
                 + " - "
                 + str(part.beat_map(self.segments[p].end.t))
                 + "\t duration: "
-                + str(part.beat_map(self.segments[p].duration))
+                + str(
+                    part.beat_map(self.segments[p].end.t)
+                    - part.beat_map(self.segments[p].start.t)
+                )
                 + "  \t type: "
                 + str(self.segments[p].type)
                 for p in self.path
